@@ -1,0 +1,17 @@
+//go:build verif
+
+// Contracts of package lines for the gocv verifier (property C24).
+// Comment-only: no Go code is compiled from this file.
+//
+// The view is the listing view of a disassembler session of the corpus, with
+// the cursor on any of its lines; n is any height of the height set (at least
+// MinLines). out_lines(): number of newlines written; out_whole_lines(): every
+// write ends with a newline.
+
+package lines
+
+//@ func (*View).Print
+//@   enum s in VIEWSTATES
+//@   requires cursor_anywhere() && height_at_least(5)
+//@   ensures[fits] result == nil && out_lines() <= n
+//@   ensures[whole-lines] out_whole_lines()
